@@ -48,7 +48,9 @@ func refusedInputs(r *vk.RNG) []string {
 		l = append(l, string([]byte{c}), string([]byte{c, '1'}))
 	}
 	l = append(l, "+", "+-", "+ 1", "++1", "1\n2", "a\n", "+1\n", "\n1", " 1", "\xff\xfe", "é", "*", "<", ">", "_", "^", ".",
-		strings.Repeat("a", 256), strings.Repeat("1", 257), strings.Repeat("z", 300), "+"+strings.Repeat("9", 255), strings.Repeat("q", 70000))
+		strings.Repeat("a", 256), strings.Repeat("1", 257), strings.Repeat("z", 300), "+"+strings.Repeat("9", 255), strings.Repeat("q", 70000),
+		// longer than the limit in bytes, shorter in characters
+		"1"+strings.Repeat("é", 128), strings.Repeat("€", 86), strings.Repeat("1", 200)+strings.Repeat("𝄞", 14))
 	return l
 }
 
